@@ -85,7 +85,7 @@ fn check_steps(run: &Run, prog: &[OpCode]) -> &'static str {
 
 fn skeleton_alphabet() -> Vec<OpCode> {
     use OpCode::*;
-    let mut skel = vec![pi(1), PushB(vec![]), Noop, Jmp(0), Jmp(1), Jmp(2), Jmp(3), Bnz(0), Bnz(1), Bnz(2), Bez(1)];
+    let mut skel = vec![pi(1), Noop, Jmp(0), Jmp(1), Jmp(2), Jmp(3), Bnz(0), Bnz(1), Bnz(2), Bez(1)];
     for i in [1u16, 2, 3] {
         for n in [0u16, 1, 2, 3, 4] {
             skel.push(Loop(i, n));
@@ -415,17 +415,18 @@ pub fn run(run: &Run) {
             }
         }
     }
-    // every instruction that needs no operand on the stack, repeated 50000 times by a loop: each execution is paid for
+    // every instruction that needs no operand on the stack, repeated 3000 times by a loop: each execution is paid for
     {
         use OpCode::*;
         let singles = vec![Noop, PushB(vec![]), PushB(vec![1]), PushB(vec![0; 33]), PushB(vec![0; 255]), PushI(0u8.into()), PushIC(0u8.into()), PushIC(U256::MAX), BEmpty, VEmpty, LoadImm(0), Dup];
         for op in singles {
-            let p = vec![pi(1), StoreImm(0), pi(1), Loop(50000, 1), op];
+            let p = vec![pi(1), StoreImm(0), pi(1), Loop(3000, 1), op];
             run.outcome(&format!("loop-over-single-opcode:{}", check_steps(run, &p)));
             towers += 1;
         }
     }
     run.states_add(towers);
+    println!("  [phase] steps+towers done at {:.1}s", run.elapsed());
     // loops followed by a tail longer than a 16-bit count can express (programs of more than 65536 instructions)
     let tails: Vec<usize> = if thorough { vec![65_529, 65_530, 65_531, 65_532, 65_533, 65_534, 65_535, 65_536, 65_537, 131_066, 131_069, 131_071, 131_072] } else { vec![65_531, 65_534, 65_535, 65_536, 131_069] };
     let long_tail = parking_lot::Mutex::new(0u64);
@@ -439,6 +440,7 @@ pub fn run(run: &Run) {
     });
     run.states_add(long_tail.into_inner());
     run.set("long_tail_programs", json!({"tails": tails, "heads": ["pushi 0; loop 1000 2; pushi 1; add", "pushi 0; loop 30 3; loop 20 2; pushi 1; add"]}));
+    println!("  [phase] long tails done at {:.1}s", run.elapsed());
     // (ii) weighing work
     let mut weigh_cases = 0u64;
     let max_exh = if thorough { 8 } else { 6 };
@@ -479,6 +481,7 @@ pub fn run(run: &Run) {
     for k in if thorough { vec![50usize, 500, 5000, 100_000] } else { vec![50usize, 500, 5000] } {
         child_cases.push(("weigh-bytes-b0".into(), k, "-".into()));
     }
+    println!("  [phase] weighing done at {:.1}s", run.elapsed());
     // (iii) data doubling
     let ks: Vec<usize> = if thorough { (1..=26).collect() } else { vec![1, 2, 8, 16, 20, 22, 24, 26] };
     for k in &ks {
